@@ -31,6 +31,13 @@ package harness
 import (
 	"encoding/json"
 	"fmt"
+	"go/ast"
+	"go/parser"
+	"go/token"
+	"os"
+	"path/filepath"
+	"regexp"
+	"strconv"
 	"sort"
 	"strings"
 	"sync"
@@ -66,6 +73,54 @@ var c02ProbeVerbs = []string{
 	"NOTICE",
 	"REGISTER", "CONNECTED", "DISCONNECTED",
 	"PRIVMSG", "ACTION", "CTCPREPLY",
+}
+
+// c02SourceVerbs: every string literal in the non-test sources of package client that looks like a command name or a
+// numeric and is not a probe verb already. A verb the library mentions anywhere (a constant of commands.go, a case of
+// Target / Public / a handler table) is probed like the ones with built-in handling, so that a verb that gains special
+// treatment is covered without the harness knowing its name. Read from the tree under check (VERIF_REPO, default /repo),
+// in sorted order, identically in the runner and in every worker.
+func c02SourceVerbs() []string {
+	dir := os.Getenv("VERIF_REPO")
+	if dir == "" {
+		dir = "/repo"
+	}
+	files, _ := filepath.Glob(filepath.Join(dir, "client", "*.go"))
+	sort.Strings(files)
+	have := map[string]bool{}
+	for _, v := range c02ProbeVerbs {
+		have[v] = true
+	}
+	verbish := regexp.MustCompile(`^([A-Z]{3,14}|[0-9]{3})$`)
+	var out []string
+	for _, f := range files {
+		if strings.HasSuffix(f, "_test.go") {
+			continue
+		}
+		af, err := parser.ParseFile(token.NewFileSet(), f, nil, 0)
+		if err != nil {
+			continue
+		}
+		ast.Inspect(af, func(n ast.Node) bool {
+			if bl, ok := n.(*ast.BasicLit); ok && bl.Kind == token.STRING {
+				if v, err := strconv.Unquote(bl.Value); err == nil && verbish.MatchString(v) && !have[v] {
+					have[v] = true
+					out = append(out, v)
+				}
+			}
+			return true
+		})
+	}
+	sort.Strings(out)
+	return out
+}
+
+var c02NSourceVerbs int
+
+func init() {
+	sv := c02SourceVerbs()
+	c02NSourceVerbs = len(sv)
+	c02ProbeVerbs = append(c02ProbeVerbs, sv...)
 }
 
 var c02ProbeSrcs = []MSrc{
@@ -837,7 +892,7 @@ func init() {
 	Register(&Prop{
 		ID: "C02",
 		Rule: "(1) every string over {@ : space ! ; = \\ \\x01 a # 1} up to length 6 (quick) / 7 (thorough) and (2) every concatenation of up to 4 / 5 tokens (24 verbs and numerics, 14 punctuation / prefix tokens) given to ParseLine, with Text/Target/Public on every non-nil result; (1b) the strings of (1) up to length 4 / 5 after each of 12 prefixes (PRIVMSG / NOTICE text with and without source and tags, CAP LS / ACK lists, MODE, 353, 324, AUTHENTICATE), and (1c) up to length 3 / 4 through sessions with and without tracking; " +
-			"(3) every probe line verb x 0-4 / 0-6 middle parameters over {me,#c,x} (CAP: plus LS, ACK, NAK, at most 4) x 6 trailings (absent, empty, two words, the own nick, a bare minus sign, odd modifier tokens) x 4 sources for the 30 verbs with built-in handling, sent through a connection 100 per session with state tracking off and on, each session closed by PING :sync-end and a well-formed PRIVMSG; (3b) the same for the 8 negotiation-sensitive verbs (plus base64 / non-base64 AUTHENTICATE payloads) with negotiation and SASL PLAIN configured at 3 negotiation stages; " +
+			"(3) every probe line verb x 0-4 / 0-6 middle parameters over {me,#c,x} (CAP: plus LS, ACK, NAK, at most 4) x 6 trailings (absent, empty, two words, the own nick, a bare minus sign, odd modifier tokens) x 4 sources for the 30 verbs with built-in handling and for every other command name or numeric that occurs as a string literal in the sources of package client (read from the tree under check), sent through a connection 100 per session with state tracking off and on, each session closed by PING :sync-end and a well-formed PRIVMSG; (3b) the same for the 8 negotiation-sensitive verbs (plus base64 / non-base64 AUTHENTICATE payloads) with negotiation and SASL PLAIN configured at 3 negotiation stages; " +
 			"(4) every sequence of up to 2 / 3 lines over one representative per outcome class (class = direct parse result, session outcome, warn/error log formats, verbs written in response; computed over a pool of about 8000 candidate lines) through a connection; " +
 			"distinct = distinct line (1,2), distinct (tracking, line) (3), distinct (tracking, sequence) (4)",
 		Assumptions: []string{
